@@ -228,3 +228,12 @@ def run(res, facts, tier):
     _run_c01_prev_count(res, facts, tier)
     from . import c01_count
     c01_count.run_rule(res, facts, tier)
+
+
+_run_c01_prev_nomatch = run
+
+
+def run(res, facts, tier):
+    _run_c01_prev_nomatch(res, facts, tier)
+    from . import c10_builtin
+    c10_builtin.run_c01_nomatch_rule(res, facts, tier)
